@@ -12,7 +12,7 @@ PROP = "C15"
 LEVEL = "exploration"
 RULE = (
     "all sequences of register(name,class) [3 names incl. a protected tag name x 3 classes], unregister(name), "
-    "clear() of the stated length on a fresh registry + private Library, for 5 configurations "
+    "clear(), switch-formatter() (settings given as a getter) of the stated length on a fresh registry + private Library, for 5 configurations "
     "(default/shorthand formatter x protected tags on/off, plus default formatter with its own tag protected); "
     "observers all()/get()/library.tags checked after every step against a dict model; distinct by (config, op tuple); "
     "non-trivial = at least one successful register followed by an unregister/clear/conflicting register; "
@@ -38,6 +38,9 @@ def all_ops():
     ops = [("reg", n, c) for n in range(len(NAMES)) for c in range(NCLS)]
     ops += [("unreg", n, None) for n in range(len(NAMES))]
     ops.append(("clear", None, None))
+    # the registry's settings may be a getter "so the settings can respond to changes": the tag formatter (and so the tag a
+    # name maps to) switches between calls
+    ops.append(("fmt", None, None))
     return ops
 
 
@@ -99,7 +102,9 @@ class Env:
             lib.tags[k] = f
         if protected:
             self.mark(lib, list(protected))
-        reg = self.ComponentRegistry(library=lib, settings=self.RegistrySettings(context_behavior="django", tag_formatter=self.fmt[fmt]))
+        cell = {"fmt": fmt}
+        reg = self.ComponentRegistry(library=lib, settings=lambda _reg: self.RegistrySettings(context_behavior="django", tag_formatter=self.fmt[cell["fmt"]]))
+        reg._vf_cell = cell
         # harness hygiene only: registries announce themselves in a process-global list
         try:
             lst = self.cr.all_registries
@@ -115,18 +120,32 @@ def start_tag(fmt, name):
 
 
 class RegModel:
+    """Plain dict name -> class, plus for every registered name the tag it uses.  When the same class is registered again under
+    a name after the formatter changed, the statement allows a no-op (old tag kept) or a move to the new tag: ``use`` then holds
+    both candidates until the library's tag table tells which one it was (``narrow``); either way the table must equal the
+    pre-existing tags plus exactly the tags in use."""
+
     def __init__(self, fmt, protected, pre):
         self.fmt, self.protected, self.pre = fmt, set(protected), pre
         self.d = {}
+        self.use = {}  # name -> set of candidate tags
 
     def step(self, op):
         kind, n, c = op
+        if kind == "fmt":
+            self.fmt = "shorthand" if self.fmt == "default" else "default"
+            return None
         if kind == "reg":
             name = NAMES[n]
             if name in self.d and self.d[name] != c:
                 return "AlreadyRegistered"
-            if start_tag(self.fmt, name) in self.protected:
+            t = start_tag(self.fmt, name)
+            if t in self.protected:
                 return "TagProtectedError"
+            if name in self.d:
+                self.use[name] = self.use[name] | {t}
+            else:
+                self.use[name] = {t}
             self.d[name] = c
             return None
         if kind == "unreg":
@@ -134,18 +153,41 @@ class RegModel:
             if name not in self.d:
                 return "NotRegistered"
             del self.d[name]
+            del self.use[name]
             return None
         self.d.clear()
+        self.use.clear()
         return None
 
+    def narrow(self, tags):
+        """True iff some choice of a non-empty subset of candidate tags per registered name explains ``tags`` (a component
+        registered again under a changed formatter may use the old tag, the new one, or both - but nothing else, and nothing
+        once it is unregistered); narrows the candidates to the tags that occur in such a choice."""
+        names = sorted(self.use)
+        per_name = []
+        for n in names:
+            c = sorted(self.use[n])
+            per_name.append([sub for r in range(1, len(c) + 1) for sub in itertools.combinations(c, r)])
+        ok = []
+        for choice in itertools.product(*per_name):
+            if set(self.pre).union(*choice) == tags:
+                ok.append(choice)
+        if not ok:
+            return False
+        for i, n in enumerate(names):
+            self.use[n] = set().union(*[ch[i] for ch in ok])
+        return True
+
     def tags(self):
-        return set(self.pre) | {start_tag(self.fmt, n) for n in self.d}
+        return set(self.pre) | {min(v) for v in self.use.values()}
 
 
 def apply(env, reg, op):
     kind, n, c = op
     try:
-        if kind == "reg":
+        if kind == "fmt":
+            reg._vf_cell["fmt"] = "shorthand" if reg._vf_cell["fmt"] == "default" else "default"
+        elif kind == "reg":
             reg.register(NAMES[n], env.classes[c])
         elif kind == "unreg":
             reg.unregister(NAMES[n])
@@ -182,8 +224,8 @@ def observe(env, reg, lib, model, pre):
         if got != exp:
             return f"get({name!r}) -> {got!r}, model {exp!r}"
     tags = set(lib.tags)
-    if tags != model.tags():
-        return f"library.tags = {sorted(tags)}, model {sorted(model.tags())}"
+    if not model.narrow(tags):
+        return f"library.tags = {sorted(tags)}, model: pre-existing {sorted(model.pre)} + one of {({n: sorted(v) for n, v in model.use.items()})} per registered name"
     for k, f in pre.items():
         if k in model.protected or k == "pre":
             if lib.tags.get(k) is not f:
@@ -224,6 +266,8 @@ def fmt_op(op):
         return f"register({NAMES[n]!r}, C{c})"
     if kind == "unreg":
         return f"unregister({NAMES[n]!r})"
+    if kind == "fmt":
+        return "switch-formatter()"
     return "clear()"
 
 
